@@ -155,8 +155,12 @@ Definition replace_list (e' : elem) (l : list elem) : list elem :=
 
 Section WithCfg.
 Context (c : cfg).
+(* A debug_assert!/cfg!(debug_assertions) check.  The model has no profile switch: it checks in
+   every profile.  The theorems show that no such check can fail, so in the debug build it is a
+   no-op; the release binary is tied to this same model by the release correspondence run, which
+   would diverge from it if a check that release skips could fail (DESIGN.md, C17). *)
 Definition debug_check (b : bool) (site : N) : M' unit :=
-  if cdebug c && negb b then unwind (PDebugAssert site) else ret tt.
+  if b then ret tt else unwind (PDebugAssert site).
 Definition assert_ (b : bool) (site : N) : M' unit :=
   if b then ret tt else unwind (PAssert site).
 End WithCfg.
